@@ -183,7 +183,7 @@ class Explorer:
         self.opts = opts or {}
         self.summaries = {}
         self.invariants = {}
-        self.inline_roots = ["/repo/mitmproxy"]
+        self.inline_roots = [os.path.join(os.environ.get("PYVC_REPO", "/repo"), "mitmproxy")]
         self.results: list[Obligation] = []
         self.notes_all: dict[str, set] = {}
         self.paths = 0
